@@ -23,6 +23,10 @@ type C11Case struct {
 	ViaRPC        bool    `json:"viaRpc"`  // main plan issued over the plugin RPC instead of the side channel
 	JitterUs      int     `json:"jitterUs"`
 	PluginHook    string  `json:"pluginHook"` // VERIF_HOOK for the plugin process, e.g. grpcstdio.beforeSend:sleep:2
+	// FlakyWriter (gRPC kinds): "<err|short>:<o|e>": the sync writer of that stream refuses every third Write
+	// call (an error, nothing taken) or takes only the first half of it (short write). What that writer
+	// refuses is lost to it; it must never turn up at the other stream's writer
+	FlakyWriter string `json:"flakyWriter,omitempty"`
 }
 
 type C11Stream struct {
@@ -33,6 +37,12 @@ type C11Stream struct {
 	IsPrefix  bool   `json:"isPrefix"`  // received is a prefix of expected (checked at every snapshot)
 	CrossTag  bool   `json:"crossTag"`  // bytes at the diff look like a frame header of the other stream
 	Context   string `json:"context,omitempty"`
+	// flaky writer: Received is what it accepted; Offered counts every byte handed to it; NotSubseq: what it
+	// accepted cannot be obtained from the expected stream by deleting bytes
+	Flaky     bool  `json:"flaky,omitempty"`
+	Offered   int64 `json:"offered,omitempty"`
+	Refusals  int   `json:"refusals,omitempty"`
+	NotSubseq bool  `json:"notSubseq,omitempty"`
 }
 
 type C11Obs struct {
